@@ -17,6 +17,13 @@ def main():
   with open(job_path) as f:
     job = json.load(f)
   faulthandler.enable()
+  try:
+    import resource
+    # An exploding statement must become a MemoryError in this child (the case is then
+    # discarded and counted), not an OOM kill of the machine.
+    resource.setrlimit(resource.RLIMIT_AS, (8 << 30, 8 << 30))
+  except Exception:
+    pass
   faulthandler.dump_traceback_later(job.get('timeout', 600), exit=True)
   # The system under test prints (import warnings, SQL on error, progress pictures);
   # none of it is part of any oracle unless an engine captures it itself.
